@@ -1,9 +1,578 @@
 #!/usr/bin/env python3
-"""Writes harness/src/generated/decls.rs (placeholder until the declaration catalogue exists)."""
+"""
+Writes harness/src/generated/decls.rs: the catalogue of derived declarations and evolution
+histories, each as
+
+  * real Rust source using #[derive(BinaryCodec)] (expanded by /repo's *current* macro when the
+    harness is built), and
+  * the same declaration as an S-expression for the Lean model (assembled at run time from
+    `<FieldType as V>::ty()` and `V::show(&default)`), plus the `V` impl (generator, printer,
+    canonicaliser) for the type.
+
+The catalogue is deterministic: a hand-written base that covers every declaration shape and
+attribute combination, plus pseudo-random declarations and histories from a fixed internal seed
+(DECL_SEED, overridable through the environment for thorough runs).
+"""
 import os
-out = os.path.join(os.path.dirname(os.path.abspath(__file__)), "..", "src", "generated", "decls.rs")
-os.makedirs(os.path.dirname(out), exist_ok=True)
-content = "// generated by gen/gen_decls.py\n"
-old = open(out).read() if os.path.exists(out) else None
-if old != content:
-    open(out, "w").write(content)
+import random
+import sys
+
+HERE = os.path.dirname(os.path.abspath(__file__))
+OUT = os.path.join(HERE, "..", "src", "generated", "decls.rs")
+DECL_SEED = int(os.environ.get("VERIF_DECL_SEED", "20260928"))
+N_RANDOM_DECLS = int(os.environ.get("VERIF_N_DECLS", "24"))
+N_HISTORIES = int(os.environ.get("VERIF_N_HIST", "22"))
+
+# field types usable in generated declarations: rust type -> list of default expressions
+TYPES = {
+    "u8": ["0u8", "7u8", "255u8"],
+    "i32": ["0i32", "-1i32", "123456i32"],
+    "u64": ["0u64", "u64::MAX"],
+    "i16": ["-300i16"],
+    "bool": ["false", "true"],
+    "String": ["String::new()", "\"default string\".to_string()", "\"gone\".to_string()"],
+    "char": ["'x'"],
+    "f64": ["0.5f64"],
+    "()": ["()"],
+    "Vec<u8>": ["vec![1u8, 2, 3]", "Vec::new()"],
+    "Vec<String>": ["Vec::new()", "vec![\"a\".to_string()]"],
+    "Vec<u16>": ["vec![1u16, 300]"],
+    "(u8, String)": ["(1u8, \"t\".to_string())"],
+    "[u8; 3]": ["[1u8, 2, 3]"],
+    "[u16; 2]": ["[1u16, 2]"],
+    "std::collections::BTreeMap<String, u32>": ["std::collections::BTreeMap::new()"],
+    "std::collections::HashSet<String>": ["std::collections::HashSet::new()"],
+    "crate::v::DStr": ["crate::v::DStr(\"x\".to_string())", "crate::v::DStr(\"gone\".to_string())"],
+    "Result<u8, String>": ["Ok(1u8)"],
+    "std::time::Duration": ["std::time::Duration::new(1, 5)"],
+}
+OPTION_SPELLINGS = ["Option<{}>", "std::option::Option<{}>", "core::option::Option<{}>"]
+
+
+class F:
+    def __init__(self, name, ty, role="plain", default=None, inner=None):
+        self.name = name          # field name
+        self.ty = ty              # full rust type text
+        self.role = role          # plain | optional | transient
+        self.default = default    # rust expr (FieldAdded default or transient default) or None
+        self.inner = inner        # for optional: the type inside the Option
+
+    def clone(self):
+        return F(self.name, self.ty, self.role, self.default, self.inner)
+
+
+class Rec:
+    """a record: struct, or the body of an enum variant"""
+    def __init__(self, name, fields, steps=None):
+        self.name = name
+        self.fields = fields
+        self.steps = steps or []   # ('add', name, default) | ('opt', name) | ('rem', name) | ('tra', name)
+
+
+class Variant:
+    def __init__(self, name, kind, rec, transient=False):
+        self.name = name
+        self.kind = kind           # unit | tuple | struct
+        self.rec = rec             # Rec (fields named field0.. for tuple variants)
+        self.transient = transient
+
+
+class Enum:
+    def __init__(self, name, variants, sorted_=False):
+        self.name = name
+        self.variants = variants
+        self.sorted = sorted_
+
+
+def opt(inner, spelling=0):
+    return OPTION_SPELLINGS[spelling].format(inner)
+
+
+def evolution_attr(steps):
+    if not steps:
+        return ""
+    parts = []
+    for s in steps:
+        if s[0] == "add":
+            parts.append('FieldAdded("%s", %s)' % (s[1], s[2]))
+        elif s[0] == "opt":
+            parts.append('FieldMadeOptional("%s")' % s[1])
+        elif s[0] == "rem":
+            parts.append('FieldRemoved("%s")' % s[1])
+        elif s[0] == "tra":
+            parts.append('FieldMadeTransient("%s")' % s[1])
+    return "#[evolution(%s)]\n" % ", ".join(parts)
+
+
+def field_decl_lines(fields, pub=True, named=True):
+    out = []
+    for f in fields:
+        attr = "#[transient(%s)] " % f.default if f.role == "transient" else ""
+        if named:
+            out.append("    %s%s%s: %s," % (attr, "pub " if pub else "", f.name, f.ty))
+        else:
+            out.append("    %s%s," % (attr, f.ty))
+    return "\n".join(out)
+
+
+def model_fields_expr(rec):
+    """Rust expression (String) for `(fields ...) (steps ...)` of a record"""
+    parts = []
+    for f in rec.fields:
+        dflt = None
+        if f.role == "transient":
+            dflt = f.default
+        else:
+            for s in rec.steps:
+                if s[0] == "add" and s[1] == f.name:
+                    dflt = s[2]
+        if dflt is not None:
+            parts.append('format!("(%s %s {} {})", <%s as V>::ty().unwrap(), V::show(&{ let d: %s = %s; d }))'
+                         % (f.name, f.role, f.ty, f.ty, dflt))
+        else:
+            parts.append('format!("(%s %s {})", <%s as V>::ty().unwrap())' % (f.name, f.role, f.ty))
+    steps = []
+    for s in rec.steps:
+        code = {"add": "add", "opt": "opt", "rem": "rem", "tra": "tra"}[s[0]]
+        steps.append("(%s %s)" % (code, s[1]))
+    fields_vec = "vec![%s]" % ", ".join(parts) if parts else "Vec::<String>::new()"
+    return 'format!("(fields {}) (steps %s)", %s.join(" "))' % (" ".join(steps), fields_vec)
+
+
+def gen_field_exprs(fields, binding):
+    """generator expressions for a list of fields"""
+    return ["V::gen(r, d.saturating_sub(1))" for _ in fields]
+
+
+def emit_struct(rec, out, env_fns):
+    n = rec.name
+    out.append("#[derive(Debug, Clone, BinaryCodec)]")
+    out.append(evolution_attr(rec.steps).rstrip("\n")) if rec.steps else None
+    if rec.fields:
+        out.append("pub struct %s {\n%s\n}" % (n, field_decl_lines(rec.fields)))
+    else:
+        out.append("pub struct %s;" % n)
+    # V impl
+    fs = rec.fields
+    gen_body = "%s { %s }" % (n, ", ".join("%s: V::gen(r, d.saturating_sub(1))" % f.name for f in fs)) if fs else n
+    show_items = ", ".join("self.%s.show()" % f.name for f in fs)
+    canon_items = []
+    for f in fs:
+        if f.role == "transient":
+            canon_items.append("if n { let dv: %s = %s; dv.canon_m(n) } else { self.%s.canon_m(n) }" % (f.ty, f.default, f.name))
+        else:
+            canon_items.append("self.%s.canon_m(n)" % f.name)
+    sexp_items = ", ".join("<%s as V>::canon_sexp(&a[%d])?" % (f.ty, i) for i, f in enumerate(fs))
+    raw_ok = " && ".join("<%s as V>::raw_ok()" % f.ty for f in fs if f.role != "transient" and n not in f.ty) or "true"
+    out.append("""impl V for %(n)s {
+    fn ty() -> Option<String> { Some("(named %(n)s)".to_string()) }
+    fn gen(r: &mut Rng, d: u32) -> Self { let _ = (&r, d); %(gen)s }
+    fn show(&self) -> String { list_text(vec![%(show)s]) }
+    fn canon_m(&self, n: bool) -> String { let _ = n; list_text(vec![%(canon)s]) }
+    fn canon_sexp(x: &Sexp) -> Option<String> {
+        let a = x.tagged("l")?;
+        if a.len() != %(k)d { return None; }
+        Some(list_text(vec![%(sexp)s]))
+    }
+    fn rust_name() -> String { "%(n)s".to_string() }
+    fn raw_ok() -> bool { %(raw_ok)s }
+}""" % dict(n=n, gen=gen_body, show=show_items, canon=", ".join(canon_items), k=len(fs), sexp=sexp_items, raw_ok=raw_ok))
+    # vary transient
+    trans = [f for f in fs if f.role == "transient"]
+    if fs:
+        assigns = ", ".join(("%s: V::gen(r, 2)" % f.name) if f.role == "transient" else ("%s: self.%s.clone()" % (f.name, f.name)) for f in fs)
+        out.append("impl VaryTransient for %s {\n    const HAS_TRANSIENT: bool = %s;\n    fn vary_transient(&self, r: &mut Rng) -> Self { let _ = &r; %s { %s } }\n}"
+                   % (n, "true" if trans else "false", n, assigns))
+    else:
+        out.append("impl VaryTransient for %s {\n    const HAS_TRANSIENT: bool = false;\n    fn vary_transient(&self, _r: &mut Rng) -> Self { self.clone() }\n}" % n)
+    env_fns.append('format!("(rec %s {})", %s)' % (n, model_fields_expr(rec)))
+
+
+def emit_enum(en, out, env_fns):
+    n = en.name
+    out.append("#[derive(Debug, Clone, BinaryCodec)]")
+    if en.sorted:
+        out.append("#[sorted_constructors]")
+    lines = []
+    for v in en.variants:
+        attrs = ""
+        if v.transient:
+            attrs += "    #[transient]\n"
+        if v.rec.steps:
+            attrs += "    " + evolution_attr(v.rec.steps)
+        if v.kind == "unit":
+            lines.append("%s    %s," % (attrs, v.name))
+        elif v.kind == "tuple":
+            lines.append("%s    %s(%s)," % (attrs, v.name, ", ".join(
+                ("#[transient(%s)] " % f.default if f.role == "transient" else "") + f.ty for f in v.rec.fields)))
+        else:
+            inner = []
+            for f in v.rec.fields:
+                attr = "#[transient(%s)] " % f.default if f.role == "transient" else ""
+                inner.append("%s%s: %s" % (attr, f.name, f.ty))
+            lines.append("%s    %s { %s }," % (attrs, v.name, ", ".join(inner)))
+    out.append("#[allow(dead_code)]\npub enum %s {\n%s\n}" % (n, "\n".join(lines)))
+
+    def pat(v, names):
+        if v.kind == "unit":
+            return "%s::%s" % (n, v.name)
+        if v.kind == "tuple":
+            return "%s::%s(%s)" % (n, v.name, ", ".join(names))
+        return "%s::%s { %s }" % (n, v.name, ", ".join("%s: %s" % (f.name, nm) for f, nm in zip(v.rec.fields, names)))
+
+    gen_arms, show_arms, canon_arms, sexp_arms, vary_arms = [], [], [], [], []
+    for i, v in enumerate(en.variants):
+        fs = v.rec.fields
+        names = ["x%d" % j for j in range(len(fs))]
+        build = pat(v, ["V::gen(r, d.saturating_sub(1))" for _ in fs])
+        gen_arms.append("%d => %s," % (i, build))
+        show_arms.append("%s => ctor_text(%d, vec![%s])," % (pat(v, names), i, ", ".join("%s.show()" % x for x in names)))
+        citems = []
+        for f, x in zip(fs, names):
+            if f.role == "transient":
+                citems.append("if n { let dv: %s = %s; dv.canon_m(n) } else { %s.canon_m(n) }" % (f.ty, f.default, x))
+            else:
+                citems.append("%s.canon_m(n)" % x)
+        canon_arms.append("%s => ctor_text(%d, vec![%s])," % (pat(v, names), i, ", ".join(citems)))
+        sexp_arms.append("%d => { if a.len() != %d { return None; } Some(ctor_text(%d, vec![%s])) }" % (
+            i, len(fs) + 1, i, ", ".join("<%s as V>::canon_sexp(&a[%d])?" % (f.ty, j + 1) for j, f in enumerate(fs))))
+        vary = pat(v, [("V::gen(r, 2)" if f.role == "transient" else "%s.clone()" % x) for f, x in zip(fs, names)])
+        vary_arms.append("%s => %s," % (pat(v, names), vary))
+    k = len(en.variants)
+    weights = [1 if v.transient else 6 for v in en.variants]
+    has_trans = any(f.role == "transient" for v in en.variants for f in v.rec.fields)
+    raw_ok = " && ".join("<%s as V>::raw_ok()" % f.ty for v in en.variants if not v.transient for f in v.rec.fields if f.role != "transient" and n not in f.ty) or "true"
+    out.append("""impl V for %(n)s {
+    fn ty() -> Option<String> { Some("(named %(n)s)".to_string()) }
+    fn gen(r: &mut Rng, d: u32) -> Self {
+        let _ = d;
+        let w: &[u64] = &[%(weights)s];
+        let mut pick = r.below(w.iter().sum());
+        let mut idx = 0usize;
+        for (i, x) in w.iter().enumerate() { if pick < *x { idx = i; break; } pick -= *x; }
+        match idx {
+            %(gen)s
+            _ => unreachable!(),
+        }
+    }
+    fn show(&self) -> String { match self { %(show)s } }
+    fn canon_m(&self, n: bool) -> String { let _ = n; match self { %(canon)s } }
+    fn canon_sexp(x: &Sexp) -> Option<String> {
+        let a = x.tagged("c")?;
+        let idx: usize = a.first()?.atom()?.parse().ok()?;
+        match idx {
+            %(sexp)s
+            _ => None,
+        }
+    }
+    fn rust_name() -> String { "%(n)s".to_string() }
+    fn raw_ok() -> bool { %(raw_ok)s }
+}
+impl VaryTransient for %(n)s {
+    const HAS_TRANSIENT: bool = %(ht)s;
+    fn vary_transient(&self, r: &mut Rng) -> Self { let _ = &r; match self { %(vary)s } }
+}""" % dict(n=n, weights=", ".join(str(w) for w in weights), gen="\n            ".join(gen_arms), show=" ".join(show_arms),
+            canon=" ".join(canon_arms), sexp="\n            ".join(sexp_arms), vary=" ".join(vary_arms),
+            ht="true" if has_trans else "false", raw_ok=raw_ok) if k > 0 else "")
+    ctor_exprs = []
+    for v in en.variants:
+        ctor_exprs.append('format!("(ctor %s %s {})", %s)' % (v.name, "transient" if v.transient else "normal", model_fields_expr(v.rec)))
+    env_fns.append('format!("(enum %s %s {})", vec![%s].join(" "))' % (n, "sorted" if en.sorted else "unsorted", ", ".join(ctor_exprs)))
+
+
+# ---------------------------------------------------------------------------------------------
+# base catalogue
+
+def base_catalogue():
+    decls = []
+    # the repository's own test declarations
+    decls.append(Rec("Point", [F("x", "i32"), F("y", "i32"), F("_cached_str", "Option<String>", "transient", "None::<String>")],
+                     [("add", "x", "0"), ("rem", "z")]))
+    decls.append(Rec("Point2", [F("x", "i32"), F("y", "i32"), F("_cached_str", "Option<String>", "transient", "None::<String>"),
+                                F("description", "Option<String>", "optional", None, "String")],
+                     [("add", "x", "0"), ("rem", "z"), ("add", "description", "Some(\"hello\".to_string())"), ("opt", "description")]))
+    decls.append(Enum("Choices", [Variant("A", "unit", Rec("A", [])), Variant("B", "tuple", Rec("B", [F("field0", "String")])),
+                                  Variant("C", "struct", Rec("C", [F("pt", "Option<Point>", "optional", None, "Point"), F("z", "u64")]))]))
+    decls.append(Rec("UnitS", []))
+    decls.append(Rec("One", [F("a", "u8")]))
+    decls.append(Rec("Twelve", [F("f%d" % i, t) for i, t in enumerate(
+        ["u8", "i16", "u32", "i64", "bool", "String", "char", "f32", "()", "Vec<u8>", "Option<u8>", "(u8, String)"])]))
+    decls[-1].fields[10] = F("f10", "Option<u8>", "optional", None, "u8")
+    # the three Option spellings
+    decls.append(Rec("OptSpell", [F("a", opt("u8", 0), "optional", None, "u8"), F("b", opt("String", 1), "optional", None, "String"),
+                                  F("c", opt("Vec<u16>", 2), "optional", None, "Vec<u16>"), F("d", "u8")]))
+    # transient in every position, non-default values are generated
+    decls.append(Rec("TransFirst", [F("t", "u32", "transient", "7u32"), F("a", "u8"), F("b", "String")]))
+    decls.append(Rec("TransMid", [F("a", "u8"), F("t", "String", "transient", "\"dflt\".to_string()"), F("b", "String")]))
+    decls.append(Rec("TransLast", [F("a", "u8"), F("b", "String"), F("t", "Vec<u8>", "transient", "vec![9u8]")]))
+    decls.append(Rec("TransOnly", [F("t", "u8", "transient", "1u8")]))
+    decls.append(Rec("TransEvolved", [F("a", "u8"), F("t", "Option<String>", "transient", "None"), F("n", "u16"), F("b", "String")],
+                     [("add", "n", "5u16"), ("tra", "t")]))
+    # made optional then transient / removed (D10)
+    decls.append(Rec("OptThenTransient", [F("a", "u8"), F("c", "Option<u32>", "transient", "None")],
+                     [("opt", "c"), ("tra", "c")]))
+    decls.append(Rec("OptThenRemoved", [F("a", "u8")], [("opt", "c"), ("rem", "c")]))
+    # nesting and recursion
+    decls.append(Rec("Inner", [F("id", "String")]))
+    decls.append(Rec("Outer", [F("head", "u16"), F("inner", "Inner"), F("list", "Vec<Inner>"), F("tail", "String")]))
+    decls.append(Rec("RecList", [F("v", "u8"), F("next", "Option<Box<RecList>>", "optional", None, "Box<RecList>")]))
+    decls.append(Rec("RecTree", [F("label", "String"), F("kids", "Vec<RecTree>")]))
+    decls.append(Rec("EvolvedInner", [F("a", "u8"), F("b", "String"), F("c", "Option<u16>", "optional", None, "u16")],
+                     [("add", "b", "\"nb\".to_string()"), ("add", "c", "None"), ]))
+    decls.append(Rec("EvolvedOuter", [F("x", "u16"), F("e", "EvolvedInner"), F("es", "Vec<EvolvedInner>"), F("y", "String"), F("z", "u8")],
+                     [("add", "z", "3u8")]))
+    # deduplicated strings in evolved records with removed names in the header (D11)
+    decls.append(Rec("DedupR", [F("name", "crate::v::DStr")], [("rem", "gone")]))
+    decls.append(Rec("DedupR2", [F("a", "crate::v::DStr"), F("b", "crate::v::DStr")], [("rem", "gone")]))
+    decls.append(Rec("DedupMix", [F("a", "crate::v::DStr"), F("p", "String"), F("b", "crate::v::DStr"),
+                                  F("n", "crate::v::DStr"), F("l", "Vec<crate::v::DStr>")],
+                     [("rem", "x"), ("add", "n", "crate::v::DStr(\"x\".to_string())"), ("tra", "gone"), ("rem", "x")]))
+    decls.append(Rec("DedupNest", [F("h", "crate::v::DStr"), F("r", "DedupR2"), F("m", "DedupMix"), F("t", "crate::v::DStr")]))
+    # enums
+    decls.append(Enum("UnitEnum", [Variant("A", "unit", Rec("A", [])), Variant("B", "unit", Rec("B", [])), Variant("C", "unit", Rec("C", []))]))
+    decls.append(Enum("SortedEnum", [Variant("Zeta", "unit", Rec("Zeta", [])), Variant("Alpha", "tuple", Rec("Alpha", [F("field0", "u8")])),
+                                     Variant("Mid", "struct", Rec("Mid", [F("s", "String")])), Variant("Beta", "unit", Rec("Beta", []))], True))
+    decls.append(Enum("TransCtorFirst", [Variant("T", "struct", Rec("T", [F("p", "u8")]), True), Variant("A", "unit", Rec("A", [])),
+                                         Variant("B", "tuple", Rec("B", [F("field0", "u16"), F("field1", "String")]))]))
+    decls.append(Enum("TransCtorMid", [Variant("A", "tuple", Rec("A", [F("field0", "u8")])), Variant("T", "unit", Rec("T", []), True),
+                                       Variant("B", "struct", Rec("B", [F("x", "i32"), F("y", "Option<String>", "optional", None, "String")]))]))
+    decls.append(Enum("TransCtorSorted", [Variant("Delta", "unit", Rec("Delta", [])), Variant("Charlie", "unit", Rec("Charlie", []), True),
+                                          Variant("Bravo", "tuple", Rec("Bravo", [F("field0", "String")])), Variant("Alpha", "unit", Rec("Alpha", []))], True))
+    # evolution on variants (struct and tuple variants)
+    decls.append(Enum("EvolvedVariants", [
+        Variant("First", "struct", Rec("First", [F("elem", "Inner")])),
+        Variant("Second", "struct", Rec("Second", [F("id", "u64"), F("desc", "Option<String>", "optional", None, "String"),
+                                                 F("_cached", "Option<String>", "transient", "None")], [("tra", "cached")])),
+        Variant("Third", "tuple", Rec("Third", [F("field0", "u8"), F("field1", "String")], [("add", "field1", "\"added\".to_string()")])),
+        Variant("Fourth", "struct", Rec("Fourth", [F("a", "u8"), F("b", "Option<u8>", "optional", None, "u8"), F("c", "u16")],
+                                        [("opt", "b"), ("add", "c", "9u16")])),
+    ], True))
+    decls.append(Rec("EnumHolder", [F("pre", "u8"), F("e", "EvolvedVariants"), F("es", "Vec<Choices>"), F("post", "String")],
+                     [("add", "post", "String::new()")]))
+    decls.append(Enum("RecEnum", [Variant("Leaf", "tuple", Rec("Leaf", [F("field0", "u8")])),
+                                  Variant("Node", "struct", Rec("Node", [F("l", "Box<RecEnum>"), F("r", "Box<RecEnum>")]))]))
+    # enum extension pairs (C13): E2 appends variants after E1's in index order
+    decls.append(Enum("Ext1", [Variant("A", "unit", Rec("A", [])), Variant("B", "tuple", Rec("B", [F("field0", "String")]))]))
+    decls.append(Enum("Ext2", [Variant("A", "unit", Rec("A", [])), Variant("B", "tuple", Rec("B", [F("field0", "String")])),
+                               Variant("C", "struct", Rec("C", [F("n", "u32")])), Variant("D", "unit", Rec("D", []))]))
+    decls.append(Enum("ExtS1", [Variant("Bb", "tuple", Rec("Bb", [F("field0", "u8")])), Variant("Aa", "unit", Rec("Aa", []))], True))
+    decls.append(Enum("ExtS2", [Variant("Zz", "unit", Rec("Zz", [])), Variant("Bb", "tuple", Rec("Bb", [F("field0", "u8")])),
+                                Variant("Aa", "unit", Rec("Aa", [])), Variant("Cc", "struct", Rec("Cc", [F("q", "String")]))], True))
+    # many fields: position bytes beyond 127 (D15)
+    decls.append(Rec("Many130", [F("f%d" % i, "u8") for i in range(130)]))
+    decls.append(Rec("Many130Evolved", [F("f%d" % i, "u8") for i in range(130)] + [F("extra", "u16")], [("add", "extra", "1u16")]))
+    return decls
+
+
+# ---------------------------------------------------------------------------------------------
+# random declarations
+
+def rand_type(rng):
+    return rng.choice(list(TYPES.keys()))
+
+
+def random_struct(rng, name):
+    k = rng.randint(0, 6)
+    fields = []
+    steps = []
+    for i in range(k):
+        t = rand_type(rng)
+        role = rng.choice(["plain", "plain", "plain", "optional", "transient"])
+        fname = "g%d" % i
+        if role == "optional":
+            fields.append(F(fname, opt(t, rng.randint(0, 2)), "optional", None, t))
+        elif role == "transient":
+            fields.append(F(fname, t, "transient", rng.choice(TYPES[t])))
+        else:
+            fields.append(F(fname, t))
+    # evolution steps consistent with a history: some fields were added, some made optional
+    serial = [f for f in fields if f.role != "transient"]
+    for f in serial:
+        if rng.random() < 0.3:
+            d = rng.choice(TYPES[f.inner]) if f.role == "optional" else rng.choice(TYPES[f.ty])
+            steps.append(("add", f.name, ("Some(%s)" % d if rng.random() < 0.5 else "None") if f.role == "optional" else d))
+        if f.role == "optional" and rng.random() < 0.5:
+            steps.append(("opt", f.name))
+    if rng.random() < 0.3:
+        steps.append(("rem", "old%d" % rng.randint(0, 3)))
+    if rng.random() < 0.2:
+        steps.append(("tra", "gone"))
+    rng.shuffle(steps)
+    return Rec(name, fields, steps)
+
+
+def random_enum(rng, name):
+    k = rng.randint(1, 5)
+    variants = []
+    used = set()
+    for i in range(k):
+        while True:
+            vn = rng.choice(["Aa", "Bb", "Cc", "Dd", "Ee", "Ff", "Gg", "Ab", "Ba", "Zz"])
+            if vn not in used:
+                used.add(vn)
+                break
+        kind = rng.choice(["unit", "tuple", "struct"])
+        if kind == "unit":
+            rec = Rec(vn, [])
+        else:
+            rec = random_struct(rng, vn)
+            if kind == "tuple":
+                rename = {}
+                for j, f in enumerate(rec.fields):
+                    rename[f.name] = "field%d" % j
+                    f.name = "field%d" % j
+                rec.steps = [tuple([s[0], rename.get(s[1], s[1])] + list(s[2:])) for s in rec.steps]
+                if not rec.fields:
+                    kind = "unit"
+        variants.append(Variant(vn, kind, rec, rng.random() < 0.15))
+    if all(v.transient for v in variants):
+        variants[0].transient = False
+    return Enum(name, variants, rng.random() < 0.5)
+
+
+# ---------------------------------------------------------------------------------------------
+# evolution histories: one Rust type per version
+
+def history(rng, hname, as_variant=False):
+    """returns list of Rec (one per version 0..n), all named <hname>V<k>"""
+    k0 = rng.randint(1, 4)
+    fields = []
+    for i in range(k0):
+        t = rand_type(rng)
+        fields.append(F("a%d" % i, t))
+    steps = []
+    versions = [Rec("%sV0" % hname, [f.clone() for f in fields], [])]
+    nsteps = rng.randint(1, 5)
+    counter = 0
+    gen_of = {f.name: 0 for f in fields}
+    for s in range(1, nsteps + 1):
+        choices = ["add", "add", "opt", "rem", "tra"]
+        rng.shuffle(choices)
+        done = False
+        for c in choices:
+            serial = [f for f in fields if f.role != "transient"]
+            if c == "add":
+                counter += 1
+                t = rand_type(rng)
+                name = "n%d" % counter
+                if rng.random() < 0.35:
+                    f = F(name, opt(t, rng.randint(0, 2)), "optional", None, t)
+                    d = rng.choice(["None", "Some(%s)" % rng.choice(TYPES[t])])
+                else:
+                    f = F(name, t)
+                    d = rng.choice(TYPES[t])
+                fields.insert(rng.randint(0, len(fields)), f)
+                gen_of[name] = s
+                steps.append(("add", name, d))
+                done = True
+            elif c == "opt":
+                cands = [f for f in serial if f.role == "plain" and not f.ty.startswith("Option")]
+                if not cands:
+                    continue
+                f = rng.choice(cands)
+                f.inner = f.ty
+                f.ty = opt(f.ty, rng.randint(0, 2))
+                f.role = "optional"
+                # the FieldAdded default is typed as the field's *current* type
+                for j, st in enumerate(steps):
+                    if st[0] == "add" and st[1] == f.name:
+                        steps[j] = ("add", st[1], "Some(%s)" % st[2])
+                steps.append(("opt", f.name))
+                done = True
+            elif c in ("rem", "tra"):
+                # legal only for the last serialized field of its chunk
+                cands = []
+                for g in set(gen_of[f.name] for f in serial):
+                    inchunk = [f for f in serial if gen_of[f.name] == g]
+                    cands.append(inchunk[-1])
+                if not cands:
+                    continue
+                f = rng.choice(cands)
+                if c == "rem":
+                    fields.remove(f)
+                    steps.append(("rem", f.name))
+                else:
+                    base = f.inner if f.role == "optional" else f.ty
+                    f.default = ("None" if f.role == "optional" else rng.choice(TYPES[base]))
+                    f.role = "transient"
+                    steps.append(("tra", f.name))
+                done = True
+            if done:
+                break
+        if not done:
+            steps.append(("rem", "never_existed%d" % s))
+        versions.append(Rec("%sV%d" % (hname, s), [f.clone() for f in fields], list(steps)))
+    return versions
+
+
+def main():
+    rng = random.Random(DECL_SEED)
+    decls = base_catalogue()
+    for i in range(N_RANDOM_DECLS):
+        if rng.random() < 0.6:
+            decls.append(random_struct(rng, "RndS%d" % i))
+        else:
+            decls.append(random_enum(rng, "RndE%d" % i))
+    hists = []
+    # hand-written histories first
+    h0 = [
+        Rec("HPointV0", [F("y", "i32"), F("z", "u8")]),
+        Rec("HPointV1", [F("x", "i32"), F("y", "i32"), F("z", "u8")], [("add", "x", "0")]),
+        Rec("HPointV2", [F("x", "i32"), F("y", "i32")], [("add", "x", "0"), ("rem", "z")]),
+        Rec("HPointV3", [F("x", "i32"), F("y", "i32"), F("description", "String")],
+            [("add", "x", "0"), ("rem", "z"), ("add", "description", "\"hello\".to_string()")]),
+        Rec("HPointV4", [F("x", "i32"), F("y", "i32"), F("description", "Option<String>", "optional", None, "String")],
+            [("add", "x", "0"), ("rem", "z"), ("add", "description", "Some(\"hello\".to_string())"), ("opt", "description")]),
+        Rec("HPointV5", [F("x", "i32"), F("y", "i32"), F("description", "Option<String>", "transient", "None")],
+            [("add", "x", "0"), ("rem", "z"), ("add", "description", "Some(\"hello\".to_string())"), ("opt", "description"), ("tra", "description")]),
+    ]
+    hists.append(("HPoint", h0, False))
+    for i in range(N_HISTORIES):
+        hists.append(("H%d" % i, history(rng, "H%d" % i), False))
+
+    out = []
+    out.append("// generated by gen/gen_decls.py (DECL_SEED=%d) -- do not edit" % DECL_SEED)
+    out.append("#![allow(non_snake_case, unused_variables, unused_mut, clippy::all)]")
+    out.append("use crate::rng::Rng;\nuse crate::sexp::Sexp;\nuse crate::v::{V, VaryTransient};\nuse desert::BinaryCodec;\n")
+    out.append("fn list_text(items: Vec<String>) -> String { let mut s = String::from(\"(l\"); for i in items { s.push(' '); s.push_str(&i); } s.push(')'); s }")
+    out.append("fn ctor_text(idx: usize, items: Vec<String>) -> String { let mut s = format!(\"(c {}\", idx); for i in items { s.push(' '); s.push_str(&i); } s.push(')'); s }\n")
+    env_fns = []
+    names = []
+    for d in decls:
+        if isinstance(d, Rec):
+            emit_struct(d, out, env_fns)
+        else:
+            emit_enum(d, out, env_fns)
+        names.append(d.name)
+    hist_names = []
+    for hname, versions, _ in hists:
+        for v in versions:
+            emit_struct(v, out, env_fns)
+        hist_names.append((hname, [v.name for v in versions]))
+    # holders that embed an evolved record between siblings
+    out.append("\n/// S-expressions of every generated declaration, for the model's environment")
+    out.append("pub fn env_lines() -> Vec<String> {\n    vec![\n%s\n    ]\n}" % ",\n".join("        format!(\"env {}\", %s)" % e for e in env_fns))
+    out.append("\npub trait DeclVisitor {\n    fn decl<T: V + VaryTransient>(&mut self);\n    fn pair<W: V, R: V>(&mut self, hist: &str, w: usize, r: usize, removed_chunk0_after_w: bool);\n    fn ext<E1: V, E2: V>(&mut self, n_old: usize);\n}")
+    out.append("\npub fn visit_decls<Vis: DeclVisitor>(v: &mut Vis) {\n%s\n}" % "\n".join("    v.decl::<%s>();" % n for n in names))
+    pair_lines = []
+    for (hname, vnames), (_, versions, _) in zip(hist_names, hists):
+        for w in range(len(vnames)):
+            for r in range(len(vnames)):
+                # does reader r lack (as a serialized field) a chunk-0 field that writer w writes? (DESIGN 9.1)
+                wser = [f.name for f in versions[w].fields if f.role != "transient" and not any(s[0] == "add" and s[1] == f.name for s in versions[w].steps)]
+                rser = [f.name for f in versions[r].fields if f.role != "transient"]
+                lacks = any(n not in rser for n in wser)
+                pair_lines.append("    v.pair::<%s, %s>(\"%s\", %d, %d, %s);" % (vnames[w], vnames[r], hname, w, r, "true" if lacks else "false"))
+    out.append("\npub fn visit_hists<Vis: DeclVisitor>(v: &mut Vis) {\n%s\n}" % "\n".join(pair_lines))
+    out.append("\npub fn visit_exts<Vis: DeclVisitor>(v: &mut Vis) {\n    v.ext::<Ext1, Ext2>(2);\n    v.ext::<ExtS1, ExtS2>(2);\n}")
+    out.append("\npub const N_DECLS: usize = %d;\npub const N_HISTORIES: usize = %d;" % (len(names), len(hists)))
+    content = "\n".join(x for x in out if x is not None) + "\n"
+    os.makedirs(os.path.dirname(OUT), exist_ok=True)
+    old = open(OUT).read() if os.path.exists(OUT) else None
+    if old != content:
+        open(OUT, "w").write(content)
+    sys.stdout.write("decls.rs: %d declarations, %d histories\n" % (len(names), len(hists)))
+
+
+if __name__ == "__main__":
+    main()
